@@ -40,7 +40,8 @@ EXPORT_EXCEPTIONS = {
 }
 RENDER_EXCEPTIONS = {}
 COPY_MODULES = ("parol::generators::parser_model", "parol::generators::parser_generator",
-                "parol::generators::parser_render_ir", "parol::analysis::compiled_la_dfa")
+                "parol::generators::parser_render_ir", "parol::analysis::compiled_la_dfa",
+                "parol::analysis::lalr1_parse_table", "parol::generators::lexer_ir", "parol::generators::lexer_generator")
 
 
 def display_arg_fields(facts, cl, adt_hint=None):
